@@ -43,7 +43,12 @@ def drivers(d):
                         # dependencies in the short forms of the draft, here and in a store document
                         "dep": {"dependencies": {"a": "b" if d == 3 else ["b"], "c": {"required": ["e"]} if d >= 4
                                                  else {"properties": {"e": {"required": True}}}}},
-                        "g": {"$ref": "other.json#/f"}}}
+                        "g": {"$ref": "other.json#/f"},
+                        # a subschema that names itself with an absolute id, and a reference to that name: ids off
+                        # the reference's own path establish nothing (the property of record, upstream issue 371),
+                        # so the reference is unresolvable -- before and after the named subschema was visited
+                        "emb": {idk: H + "emb.json", "type": "integer"},
+                        "toemb": {"$ref": H + "emb.json"}}}
     out.append({
         "name": "A", "schema": S,
         "store": {H + "other.json": {"d": {"type": "integer"}, "e": {"items": {"$ref": "#/d"}},
@@ -52,7 +57,8 @@ def drivers(d):
         "instances": [{"p": 1, "q": "s"}, {"p": "x", "q": 1},
                       {"n": 3, "q": 1, "t": [["a", 1], [2, "b"]], "p": "y"}, {"r": 1, "q": 2},
                       {"q": 1, "bad": {"z": "s"}, "p": "x", "dep": {"a": 1, "c": 2}, "g": {"a": 1}},
-                      {"k": 1, "q": "s", "p": "x", "g": {"a": 1, "b": 2}, "dep": {"c": 1}},
+                      {"k": 1, "q": "s", "p": "x", "g": {"a": 1, "b": 2}, "dep": {"c": 1}, "emb": 3},
+                      {"toemb": "many", "q": "s"},
                       ("defaulting", {"q": 1, "p": "x"})],
         "refs": ["#/definitions/N", "remote.json#/d", "other.json#/e"], "scope": "sub/",
     })
@@ -282,6 +288,10 @@ class Model(object):
         for k, doc in w.store_docs0.items():
             if k not in w.resolver.store or w.resolver.store[k] != doc:
                 return ("store-document-changed|" + op[0], {"key": k})
+        # the store holds what it was given plus the documents actually retrieved, under their retrieval URLs
+        extra = set(w.resolver.store) - set(w.store_keys0) - set(w.fetched)
+        if extra:
+            return ("store-gained-entries|" + op[0], {"keys": sorted(extra)})
         return None
 
 
